@@ -1194,8 +1194,7 @@ Example restart_example :
   = [(2, mkNote [] [] [3; 7]); (-1, empty_note)].
 Proof.
   split.
-  - apply reach_sched; [apply reach_refl|]. vm_compute. repeat split; intros; try discriminate.
-    intros [H|H]; [discriminate | exact H].
+  - apply reach_sched; [apply reach_refl|]. vm_compute. repeat split; intros; try discriminate; try contradiction.
   - vm_compute. reflexivity.
 Qed.
 
